@@ -221,7 +221,7 @@ class Unit:
 
     def fn(self, rel, header_re, name=None, within_re=None, requires=None, ensures=None,
            decreases=None, loops=None, hints=None, edits=None, ret='r', nth=0,
-           prefix='', opens_with=None, canary=True, no_unwind=False, synth=None):
+           prefix='', opens_with=None, canary=True, no_unwind=False, synth=None, rebind_mut=None):
         if synth is not None:
             # D3: text produced by expanding a macro_rules! body found in the source
             it = SynthItem(*synth)
@@ -316,6 +316,15 @@ class Unit:
         if opens_with:
             body = '{\n' + opens_with.rstrip('\n') + '\n' + body[1:]
             f.edits.append(('splice', 'ghost prologue', ''))
+        if rebind_mut:
+            # D9: `mut p: T` becomes `p0: T` + leading `let mut p = p0;` so that loop invariants can name the entry value
+            pn, p0 = rebind_mut
+            pat = re.compile(r'\bmut\s+' + re.escape(pn) + r'\s*:')
+            if len(pat.findall(header)) != 1:
+                raise LostAnchor('%s: parameter `mut %s` not found' % (qual, pn))
+            header = pat.sub(p0 + ':', header)
+            body = '{\n    let mut %s = %s;\n' % (pn, p0) + body[1:]
+            f.edits.append(('D9', '`mut %s` parameter re-bound from `%s` by a leading let (same semantics)' % (pn, p0), ''))
         if self.canary and canary:
             body = '{\n/*@CANARY %s*/ assert(false);\n' % fid + body[1:]
         f.obligations.append(fid + '/body')
